@@ -22,7 +22,7 @@ int main(void)
 {
 	br_ssl_engine_context store;
 #ifdef NATIVE_REPLAY
-	memset(&store, 0, sizeof store);
+	NATIVE_FILL(&store, sizeof store);
 #endif
 	rcp = &store;
 	size_t ol = ND_SIZE(), a = ND_SIZE(), b = ND_SIZE(), c = ND_SIZE();
